@@ -733,6 +733,8 @@ def replay(rep):
         print("input:", repr(c["text"][:300]))
         for p in probs:
             print("problem:", p)
+        if not probs:
+            print("traversal, interception and show() agree with the specification")
         return 1 if probs else 0
     R = core.Run(PID, "quick", "exploration")
     sp, fails, counts, _ = part1(R)
@@ -742,4 +744,6 @@ def replay(rep):
         print("signature:", sig)
         print("case:", case)
         print("detail:", det)
+    if not rel:
+        print("class", c.get("class"), "conforms to the specification on every configuration")
     return 1 if rel else 0
